@@ -327,29 +327,35 @@ func (r *run) callback(who string, slow bool) func(ctx context.Context, old, new
 // be keyed by the type, not by its printed name.
 var primeCfgOnce sync.Once
 
-func primeSameNamedCfgTypes() {
+func primeSameNamedCfgTypes(t *testing.T) {
 	primeCfgOnce.Do(func() {
 		type SimCfg struct{ A, Limit int }
 		type UCfg struct{ N, Limit int }
-		ctx, cancel := context.WithCancel(context.Background())
-		defer cancel()
-		w1, w2 := &fake.Watcher{}, &fake.Watcher{}
-		d1, err1 := dials.Params[SimCfg]{DelayInitialVerification: true}.Config(ctx, &SimCfg{A: 1}, w1)
-		d2, err2 := dials.Params[UCfg]{DelayInitialVerification: true}.Config(ctx, &UCfg{N: 1}, w2)
-		if err1 != nil || err2 != nil {
-			panic(fmt.Sprintf("priming Config failed: %v %v", err1, err2))
-		}
-		if _, _, err := d1.EnableVerification(ctx); err != nil {
-			panic(fmt.Sprintf("priming EnableVerification failed: %v", err))
-		}
-		if _, _, err := d2.EnableVerification(ctx); err != nil {
-			panic(fmt.Sprintf("priming EnableVerification failed: %v", err))
-		}
+		// inside a bubble of its own: when it returns, every goroutine of these
+		// Dials has exited (their monitors must not report to the schedule hook
+		// of a later scenario)
+		synctest.Test(t, func(*testing.T) {
+			ctx, cancel := context.WithCancel(context.Background())
+			w1, w2 := &fake.Watcher{}, &fake.Watcher{}
+			d1, err1 := dials.Params[SimCfg]{DelayInitialVerification: true}.Config(ctx, &SimCfg{A: 1}, w1)
+			d2, err2 := dials.Params[UCfg]{DelayInitialVerification: true}.Config(ctx, &UCfg{N: 1}, w2)
+			if err1 != nil || err2 != nil {
+				panic(fmt.Sprintf("priming Config failed: %v %v", err1, err2))
+			}
+			if _, _, err := d1.EnableVerification(ctx); err != nil {
+				panic(fmt.Sprintf("priming EnableVerification failed: %v", err))
+			}
+			if _, _, err := d2.EnableVerification(ctx); err != nil {
+				panic(fmt.Sprintf("priming EnableVerification failed: %v", err))
+			}
+			cancel()
+			synctest.Wait()
+		})
 	})
 }
 
 func RunScenario(t *testing.T, sc *Scenario) (res *Result) {
-	primeSameNamedCfgTypes()
+	primeSameNamedCfgTypes(t)
 	res = &Result{Labels: map[string]bool{}}
 	if msg := sc.validate(); msg != "" {
 		res.Malformed = msg
